@@ -710,3 +710,15 @@ func init() {
 	expectedProbes["C02"] = []string{"c02_payout", "c02_shared_bucket", "c02_paid_after_slash", "c02_paid_at_boundary", "c02_completion_equals_blocktime"}
 	expectedProbes["C03"] = []string{"c03_drained_to_zero", "c03_after_slash"}
 }
+
+func init() {
+	monitorRegistry["C06"] = func(s *Schedule) []Monitor { return []Monitor{newMonC06()} }
+	monitorRegistry["C07"] = func(s *Schedule) []Monitor { return []Monitor{newMonC07()} }
+	monitorRegistry["C08"] = func(s *Schedule) []Monitor { return []Monitor{newMonC08()} }
+	nontrivialRule["C06"] = "a slash reached the hooks for a validator that carried alliance stake"
+	nontrivialRule["C07"] = "a slash reduced at least one pending unbonding entry or hit at least one pending redelegation out of the slashed validator"
+	nontrivialRule["C08"] = "at least one slash reached the hooks (the totality probe runs in every state of every run regardless)"
+	expectedProbes["C06"] = []string{"c06_slash_with_stake", "c06_multi_asset_validator", "c06_full_slash", "c06_redistribution_on_destination", "c06_multi_slash_step"}
+	expectedProbes["C07"] = []string{"c07_unbonding_slashed", "c07_redelegation_slashed", "c07_bucket_with_several_validators_or_denoms", "c07_slash_at_completion_instant", "c07_merged_sources", "c07_destination_emptied"}
+	expectedProbes["C08"] = []string{"c08_slash_with_pending_redelegations", "c08_destination_emptied"}
+}
